@@ -11,6 +11,10 @@ use mc::with_tree;
 use qwt::{AccessBin, AccessQuad, BitVector, BitVectorMut, DArray, QVector, RSNarrow, RSQVector256, RSQVector512, RSWide, SelectBin};
 use serde::{de::DeserializeOwned, Deserialize, Serialize};
 
+fn base8() -> u32 {
+    8
+}
+
 #[derive(Debug, Clone, Serialize, Deserialize)]
 enum Subject {
     Tree { alias: String, elem: String, gen: Gen, vmap: String },
@@ -21,7 +25,7 @@ enum Subject {
     /// all ordered pairs of the sequences of TINY(k, l): distinct inputs must compare different
     Pairs { alias: String, elem: String, k: u32, l: u32, vmap: String },
     /// the same numbers in every element type wide enough
-    Widths { alias: String, gen: Gen, vmap: String },
+    Widths { alias: String, gen: Gen, vmap: String, #[serde(default = "base8")] base: u32 },
 }
 
 impl Case for Subject {
@@ -47,12 +51,12 @@ impl Case for Subject {
             }
             Subject::Bits { mutable, gen } => run_bits(ctx, &prop, *mutable, gen),
             Subject::Pairs { alias, elem, k, l, vmap } => with_tree!(alias.as_str(), elem.as_str(), run_pairs(ctx, *k, *l, vmap)),
-            Subject::Widths { alias, gen, vmap } => run_widths(ctx, alias, gen, vmap),
+            Subject::Widths { alias, gen, vmap, base } => run_widths(ctx, alias, gen, vmap, *base),
         }
     }
     fn weight(&self) -> u64 {
         match self {
-            Subject::Tree { gen, .. } | Subject::Quad { gen, .. } | Subject::Widths { gen, .. } => gen.approx_len() * 128,
+            Subject::Tree { gen, .. } | Subject::Quad { gen, .. } | Subject::Widths { gen, .. } => gen.approx_len() * 128 + 1000,
             Subject::Bin { gen, .. } | Subject::DArr { gen, .. } | Subject::Bits { gen, .. } => gen.approx_len() * 16,
             Subject::Pairs { .. } => 1_000_000,
         }
@@ -282,7 +286,7 @@ fn canon_answers<X: Tree>(ctx: &mut Ctx, vals128: &[u128]) -> Option<u64> {
     let mut syms: Vec<u128> = vals128.to_vec();
     let m = vals128.iter().copied().max().unwrap_or(0);
     let tmax: u128 = if X::T::BITS == 128 { u128::MAX } else { (1u128 << X::T::BITS) - 1 };
-    for x in [0, 1, m / 2, m.saturating_sub(1), m + 1, m + 2] {
+    for x in [0, 1, m / 2, m.saturating_sub(1), m.saturating_add(1), m.saturating_add(2)] {
         if x <= tmax.min(255) || x <= m {
             syms.push(x);
         }
@@ -311,16 +315,19 @@ fn canon_answers<X: Tree>(ctx: &mut Ctx, vals128: &[u128]) -> Option<u64> {
     Some(h)
 }
 
-fn run_widths(ctx: &mut Ctx, alias: &str, gen: &Gen, vm: &str) {
+fn run_widths(ctx: &mut Ctx, alias: &str, gen: &Gen, vm: &str, base: u32) {
     // values defined for the narrowest type that holds them; every wider type must answer identically.
     // Queries: only symbols that exist in every compared type (<= max(S)+2, limited to the narrowest width)
     let a = gen.abstract_seq();
     let sigma = a.iter().copied().max().map_or(0, |m| m + 1);
-    let vals: Vec<u128> = a.iter().map(|&s| vmap(vm, 8, s, sigma)).collect();
+    let vals: Vec<u128> = a.iter().map(|&s| vmap(vm, base, s, sigma)).collect();
     ctx.set_ty(alias);
     ctx.note_input(&(alias, &vals), !vals.is_empty());
     let mut digests: Vec<(&str, u64)> = Vec::new();
     for e in ELEMS {
+        if elem_bits(e) < base {
+            continue;
+        }
         fn go<X: Tree>(ctx: &mut Ctx, v: &[u128]) -> Option<u64> {
             canon_answers::<X>(ctx, v)
         }
@@ -839,10 +846,23 @@ fn enumerate(args: &Args) -> Vec<Subject> {
                 v.push(Subject::Pairs { alias: al.into(), elem: e.into(), k: 3, l: 4, vmap: if huff { "hpow4".into() } else { "pow4".into() } });
             }
             for g in tiny_all(3, if th { 6 } else { 5 }) {
-                v.push(Subject::Widths { alias: al.into(), gen: g, vmap: if huff { "hholes".into() } else { "holes".into() } });
+                v.push(Subject::Widths { alias: al.into(), gen: g.clone(), vmap: if huff { "hholes".into() } else { "holes".into() }, base: 8 });
+                if huff {
+                    v.push(Subject::Widths { alias: al.into(), gen: g, vmap: "hbig".into(), base: 16 });
+                } else {
+                    // values that need the whole width of u16 / u32 / u64: compared in every wider type
+                    for base in [16u32, 32, 64] {
+                        for vm in ["wide", "top"] {
+                            v.push(Subject::Widths { alias: al.into(), gen: g.clone(), vmap: vm.into(), base });
+                        }
+                    }
+                }
             }
             for n in [255usize, 257, 2049] {
-                v.push(Subject::Widths { alias: al.into(), gen: Gen::Boundary { n, pat: Pat::Periodic, sigma: 200 }, vmap: if huff { "hid".into() } else { "id".into() } });
+                v.push(Subject::Widths { alias: al.into(), gen: Gen::Boundary { n, pat: Pat::Periodic, sigma: 200 }, vmap: if huff { "hid".into() } else { "id".into() }, base: 8 });
+                if !huff {
+                    v.push(Subject::Widths { alias: al.into(), gen: Gen::Boundary { n, pat: Pat::Periodic, sigma: 200 }, vmap: "spread".into(), base: 64 });
+                }
             }
         }
     }
